@@ -29,6 +29,8 @@ def build(run):
     run.kani(c, lemmas)
     crate_n, lemma_n = nav_lemma(run)
     run.kani(crate_n, [lemma_n], timeout=300)
+    crate_h, lemma_h = highlight_pass_lemma(run)
+    run.kani(crate_h, [lemma_h], timeout=300)
     indicator_sync(run)
 
 
@@ -187,6 +189,74 @@ def indicator_sync(run):
         run.sample({"observation": "Z-C07-a.%s.class_members_have_replacements" % code, "status": ro["status"],
                     "meaning": ("indicator %r is emitted by the %s rules, matched by REPLACE_INDICATORS, but has no entry in %s: it is deleted from the output" % (ro["model"].get("c"), code, tname))
                     if ro["status"] == "sat" else "every matched emitted indicator has a replacement"})
+
+
+# ======================================================================================================================
+# K-C07-e: the highlight pass (highlight_braille_string) adds dots 7-8 to cells; the only other character it may rewrite is the Nemeth
+#          baseline indicator 'b' -> U+1D44F, which only the Nemeth clean-up knows -- so only when the code is Nemeth
+HL_SHIM = r"""
+static mut CODE: usize = 0;
+const CODES: [&str; 4] = ["Nemeth", "UEB", "CMU", "Vietnam"];
+pub struct PM;
+impl PM { fn pref_to_string(&self, _n: &str) -> String { String::from(CODES[unsafe { CODE }]) } }
+pub struct Holder;
+impl Holder { fn borrow(&self) -> PM { PM } }
+pub struct PreferenceManager;
+impl PreferenceManager { fn get() -> Holder { Holder } }
+ADD_DOTS_FN
+fn run_code(code: usize, ch: char) -> char {
+    unsafe { CODE = code; }
+    HACK_STMT
+    CALL_EXPR
+}
+HARNESS(highlight_pass_rewrites_only_cells, 12) {
+    let ch = sym::ch();
+    let code = sym::below(4);
+    let r = match code { 0 => run_code(0, ch), 1 => run_code(1, ch), 2 => run_code(2, ch), _ => run_code(3, ch) };
+    let c = ch as u32;
+    cover!(code == 0 && ch == 'b', "Nemeth baseline indicator reachable");
+    cover!(code == 1 && ch == 'b', "the letter b under UEB reachable");
+    if c >= 0x2800 && c <= 0x28FF { assert!(r as u32 == (c | 0xC0), "a braille cell is not given dots 7-8"); }
+    else if code == 0 && ch == 'b' { assert!(r == 'b' || r == '\u{1D44F}', "Nemeth baseline indicator rewritten to something the clean-up does not know"); }
+    else { assert!(r == ch, "the highlight pass rewrites a character that is not a braille cell: an internal letter the code's clean-up does not know reaches the caller"); }
+}
+"""
+
+
+def api_hl(vals=None, out=None):
+    res = _mcprobe([("pref", "BrailleCode UEB"), ("pref", "BrailleNavHighlight EndPoints"), ("mathml", "<math><mi>x</mi><mo>=</mo><mtext id='q'>\"a\"</mtext></math>"), ("braille", "q"), ("pref", "BrailleCode Nemeth")])
+    br = res[3][1] if res[3][0] == "OK" else ""
+    bad = res[3][0] != "OK" or any(not (0x2800 <= ord(c) <= 0x28FF) for c in br)
+    return bad, {"script": "UEB, BrailleNavHighlight=EndPoints, x = <mtext id='q'>\"a\"</mtext>; get_braille('q') must consist of braille cells only", "braille": res[3]}
+
+
+def highlight_pass_lemma(run):
+    import re
+    import kani_run as _kr
+    sp = _sl.Source.get("src/speech.rs")
+    hb = sp.find("fn highlight_braille_string")
+    add = hb.find("fn add_dots_to_braille_char")
+    run.uses(add)
+    sig = re.search(r"fn add_dots_to_braille_char\s*\(([^)]*)\)", add.text).group(1)
+    nparams = len([x for x in sig.split(",") if x.strip()])
+    try:
+        hack = sp.find_stmt("let baseline_indicator_hack =", within=hb)
+        run.uses(hack)
+        hack_text = hack.text
+    except _sl.SliceError:
+        hack_text = ""
+    if nparams == 2 and hack_text:
+        call = "add_dots_to_braille_char(ch, baseline_indicator_hack)"
+    elif nparams == 1:
+        call = "add_dots_to_braille_char(ch)"
+    else:
+        raise _sl.SliceError("add_dots_to_braille_char: cannot tell how highlight_braille_string calls it (parameters %r)" % sig)
+    crate = _kr.Crate("c07hl", HL_SHIM.replace("ADD_DOTS_FN", add.text).replace("HACK_STMT", hack_text).replace("CALL_EXPR", call))
+    run.bound("K-C07-e", "add_dots_to_braille_char verbatim with the statement that decides its baseline-indicator flag; every char x BrailleCode in {Nemeth, UEB, CMU, Vietnam}")
+    run.assume("K-C07-e: PreferenceManager reduced to the BrailleCode preference (solver-selected among four literal codes)")
+    return crate, dict(id="K-C07-e.highlight_pass_rewrites_only_cells", harness="highlight_pass_rewrites_only_cells", api=lambda v, o: api_hl(),
+                       role=lambda v, o: "highlight-pass-introduces-letter", covers=["Nemeth baseline indicator reachable", "the letter b under UEB reachable"],
+                       claim="for every char and code: cells get dots 7-8, every other char is unchanged, except the Nemeth baseline indicator under Nemeth")
 
 
 # ======================================================================================================================
